@@ -7,7 +7,10 @@ VARIABLE l
 TInit == l = 1
 TNext == /\ l <= Len(Trace)
          /\ LET e == Trace[l] IN
-            IF e.kind = "write"
+            IF e.kind = "window"
+            THEN \* a byte window of an opened file read through the real command line: exactly the file's bits
+                 (IF e.got = e.want THEN TRUE ELSE PrintT(<<"REJECT", l, "openfile.window_differs_from_file">>))
+            ELSE IF e.kind = "write"
             THEN (IF WriterOK(e.chunks, e.outbits) THEN TRUE ELSE PrintT(<<"REJECT", l, "write.output_is_not_padded_concatenation">>))
             ELSE LET r == CheckHistory(e.term, e.leaves, e.ops) IN
                  IF r[1] = 0 THEN TRUE ELSE PrintT(<<"REJECT", l, e.ops[r[1]].op \o "." \o r[2], r[1]>>)
